@@ -932,7 +932,9 @@ def load_corpus():
 
 def run(tier, seed):
     import djsetup
+    import gen_constants
     djsetup.setup()
+    gen_constants.generate(["C13"])   # coq/Gen/C13.v from the tree under test (anchors in Attrs/Proofs.v)
     chk = C.Check("C13", tier, seed)
     chk.prove()
     thorough = tier == "thorough"
